@@ -11,6 +11,7 @@ No repository code is imported or executed.
 from __future__ import annotations
 
 import ast
+import pathlib
 import posixpath
 
 from .consts import UNKNOWN, Folder
@@ -259,6 +260,11 @@ class Evaluator:
             return self.callexpr(m, e, env)
         if isinstance(e, ast.Attribute):
             d = dotted(e)
+            if d is None and e.attr in ("suffix", "name", "stem", "suffixes", "parent"):
+                v = self.expr(m, e.value, env)
+                if isinstance(v, pathlib.PurePosixPath):
+                    r = getattr(v, e.attr)
+                    return list(r) if e.attr == "suffixes" else r
             raise AnalysisError(f"absinterp: attribute value outside subset: {d or norm(e)}")
         raise AnalysisError(f"absinterp: expression outside the decidable subset: {norm(e)[:120]}")
 
@@ -270,6 +276,9 @@ class Evaluator:
             return self.externals[d](*args, **kwargs)
         if d == "os.path.splitext" and len(args) == 1 and isinstance(args[0], str):
             return posixpath.splitext(args[0])
+        if d in ("Path", "PurePath", "PurePosixPath", "pathlib.Path", "pathlib.PurePath", "pathlib.PurePosixPath") and len(args) == 1 and isinstance(args[0], str):
+            # pure path algebra, modelled by PurePosixPath (as os.path.splitext is by posixpath)
+            return pathlib.PurePosixPath(args[0])
         if d == "bool" and len(args) == 1:
             return self.truth(args[0])
         if d == "str" and len(args) == 1 and isinstance(args[0], str):
